@@ -31,12 +31,19 @@ def parse_reports(stderr, anywhere=False):
     for blk in re.split(r"(?m)^={18}\n", stderr):
         if "WARNING: ThreadSanitizer: data race" not in blk:
             continue
-        # the two accesses: the first frame of the 'Write/Read of size' and 'Previous write/read' stacks
-        tops = re.findall(r"(?m)^\s+(?:Previous )?(?:[Aa]tomic )?(?:[Ww]rite|[Rr]ead) of size \d+ at [^\n]*\n\s+#0 ([^\n]*)", blk)
+        # the two accesses: the innermost frames of the 'Write/Read of size' and 'Previous write/read' stacks. The access itself is
+        # often inside a libstdc++ template (std::set, std::forward_list, std::function) instantiated by tulz code: the report counts
+        # when tulz code is among the innermost frames of an access, except for libstdc++'s own lazily filled locale / ctype caches
+        # inside std::regex (not tulz data)
+        stacks = re.findall(r"(?m)^\s+(?:Previous )?(?:[Aa]tomic )?(?:[Ww]rite|[Rr]ead) of size \d+ at [^\n]*\n((?:\s+#\d+ [^\n]*\n){1,6})", blk)
+        tops = [re.search(r"#0 ([^\n]*)", st).group(1) for st in stacks if re.search(r"#0 ([^\n]*)", st)]
         if not tops:
             continue
-        if not anywhere and not any("/repo/" in t or "tulz::" in t for t in tops):
-            continue            # e.g. libstdc++'s lazily filled ctype cache inside std::regex: not tulz code
+        inner = " ".join(stacks)
+        if re.search(r"std::ctype|std::locale|regex_traits|_M_transform|std::__detail::_(?:Scanner|Compiler|NFA)", inner):
+            continue
+        if not anywhere and not ("/repo/" in inner or "tulz::" in inner):
+            continue
         locs = sorted({re.sub(r"\s*\([^)]*\+0x[0-9a-f]+\)", "", re.sub(r"0x[0-9a-f]+", "", t)).strip()[:110] for t in tops})
         out.append(("data race: " + " <-> ".join(locs), blk[:4000]))
     return out
